@@ -168,10 +168,10 @@ func TestVerif_C09(t *testing.T) {
 				st.BufferReader().ReadBytes(5)
 				st.BufferReader().Peek(20)
 				st.BufferReader().ReadBytes(20)
-			}}, 2, 3),
+			}}, 1, 2),
 		mk(c09Opts{name: "fallback-mixed", freeSmall: 2,
 			client: func(p *ePair, k int, st *Stream) { c09Flush(st, 1, 0, 5); c09Flush(st, 1, 5, 100); st.Close() },
-			server: func(p *ePair, st *Stream) { st.BufferReader().ReadBytes(5); st.Close() }}, 2, 3),
+			server: func(p *ePair, st *Stream) { st.BufferReader().ReadBytes(5); st.Close() }}, 1, 2),
 		mk(c09Opts{name: "queue-full-two-streams", queueCap: 1, nstreams: 2,
 			client: func(p *ePair, k int, st *Stream) { c09Flush(st, k+1, 0, 5); c09Flush(st, k+1, 5, 20) },
 			server: func(p *ePair, st *Stream) { st.BufferReader().ReadBytes(5) }}, 1, 2),
@@ -187,7 +187,7 @@ func TestVerif_C09(t *testing.T) {
 				st.BufferReader().ReadBytes(10)
 				st.ReleaseReadAndReuse()
 				c09Flush(st, 9, 0, 4)
-			}}, 2, 3),
+			}}, 1, 2),
 		mk(c09Opts{name: "response-after-client-close",
 			client: func(p *ePair, k int, st *Stream) { c09Flush(st, 1, 0, 5); st.Close() },
 			server: func(p *ePair, st *Stream) {
@@ -196,13 +196,13 @@ func TestVerif_C09(t *testing.T) {
 					vrt.Count("response_flushed")
 				}
 				st.Close()
-			}}, 2, 3),
+			}}, 1, 2),
 		mk(c09Opts{name: "callback-partial-consume-then-peer-close", callback: true,
 			client: func(p *ePair, k int, st *Stream) { c09Flush(st, 1, 0, 20); c09Flush(st, 1, 20, 20); st.Close() },
-			onData: func(st *Stream, r BufferReader) { r.ReadBytes(3) }}, 2, 3),
+			onData: func(st *Stream, r BufferReader) { r.ReadBytes(3) }}, 1, 2),
 		mk(c09Opts{name: "callback-close-inside-ondata", callback: true,
 			client: func(p *ePair, k int, st *Stream) { c09Flush(st, 1, 0, 20); c09Flush(st, 1, 20, 20) },
-			onData: func(st *Stream, r BufferReader) { r.ReadBytes(3); st.Close() }}, 2, 3),
+			onData: func(st *Stream, r BufferReader) { r.ReadBytes(3); st.Close() }}, 1, 2),
 	}
 	runBScenarios(t, "C09", scs)
 }
